@@ -1,10 +1,15 @@
 #!/bin/bash
-# Targeted specificity regression after the fourth review round: everything for C04 (the wrapper logic changed),
-# then the newest variants of C07 and C05, then the older ones.
+# Targeted specificity regression after the fourth review round: `C04` (the wrapper logic changed), or `rest`: the
+# newest variants of C07 and C05 first, then the older ones.
 cd "$(dirname "$0")/.." || exit 2
-echo "=== C04 all $(date +%H:%M)"; ./check selftest specificity C04
-echo "=== C07 r3 r4 $(date +%H:%M)"; ./check selftest specificity C07 r3 r4
-echo "=== C05 r3 r4 $(date +%H:%M)"; ./check selftest specificity C05 r3 r4
-echo "=== C07 older $(date +%H:%M)"; ./check selftest specificity C07 C07_v C07_r2
-echo "=== C05 older $(date +%H:%M)"; ./check selftest specificity C05 C05_v C05_r2
+case "${1:-all}" in
+  C04|all) echo "=== C04 all $(date +%H:%M)"; ./check selftest specificity C04;;
+esac
+case "${1:-all}" in
+  rest|all)
+    echo "=== C07 r3 r4 $(date +%H:%M)"; ./check selftest specificity C07 r3 r4
+    echo "=== C05 r3 r4 $(date +%H:%M)"; ./check selftest specificity C05 r3 r4
+    echo "=== C07 older $(date +%H:%M)"; ./check selftest specificity C07 C07_v C07_r2
+    echo "=== C05 older $(date +%H:%M)"; ./check selftest specificity C05 C05_v C05_r2;;
+esac
 echo "ALLDONE $(date +%H:%M)"
